@@ -113,7 +113,9 @@ func runC12(cfg *vh.Config) error {
 		Type:   "c12case",
 		Check:  "c12_check",
 	}
-	r := cfg.R
+	// consecutive seeds of vh.NewRand are one draw apart (state = seed*G + c, each draw adds G):
+	// fork, so that VERIF_SEED=1,2,3 are unrelated streams
+	r := cfg.R.Fork("C12")
 	val, err := protovalidate.New()
 	if err != nil {
 		return err
